@@ -971,6 +971,7 @@ pub fn flip_sugar_forms(forms: &[Form]) -> Vec<Form> {
             Form::Define(d) => Form::Define(Def { name: d.name.clone(), value: map_expr_inner(&d.value, &id, true), sugar: !d.sugar }),
             Form::Expr(e) => Form::Expr(map_expr_inner(e, &id, true)),
             Form::Raw(s) => Form::Raw(s.clone()),
+            other => other.clone(),
         })
         .collect()
 }
@@ -993,6 +994,7 @@ pub fn calls_via_apply(forms: &[Form]) -> Vec<Form> {
             Form::Define(d) => Form::Define(Def { name: d.name.clone(), value: map_expr(&d.value, &rw), sugar: d.sugar }),
             Form::Expr(e) => Form::Expr(map_expr(e, &rw)),
             Form::Raw(s) => Form::Raw(s.clone()),
+            other => other.clone(),
         })
         .collect()
 }
